@@ -180,10 +180,11 @@ class EventSeriesClimateNetwork(EventSeries, ClimateNetwork):
                     self.event_analysis_significance(
                         method=self.__method, **ES_significance_kwargs)
 
-                for i in range(self.__N):
-                    for j in range(self.__N):
-                        if significance_matrix[i][j] < 1.0 - p_value:
-                            measure_matrix[i][j] = 0.0
+                #  (on a copy: the matrix returned by event_series_analysis
+                #  may be the memoised one)
+                measure_matrix = np.array(measure_matrix, copy=True)
+                measure_matrix[
+                    np.asarray(significance_matrix) < 1.0 - p_value] = 0.0
 
         elif self.__method in ['ES_pval', 'ECA_pval']:
             measure_matrix = \
